@@ -1165,6 +1165,13 @@ pub fn run_tier(paths: &Paths, seed: u64, n: u64, nworkers: usize, selfcheck: u6
             }
         }
     }
+    if let Ok(path) = std::env::var("VERIF_DUMP_DIGESTS") {
+        let mut text = String::new();
+        for (r, v) in &records {
+            text.push_str(&format!("L {r} {} {}\n", v["plan_digest"].as_str().unwrap_or(""), v["digest"].as_str().unwrap_or("")));
+        }
+        let _ = std::fs::write(format!("{path}.L"), text);
+    }
     let mut out = TierLOutcome { runs: records.len() as u64, wall_s: 0.0, distinct_nontrivial: 0, violations: vec![], known_hits: vec![], samples: vec![], stats: json!({}) };
     let mut scheds: BTreeSet<String> = BTreeSet::new();
     let (mut steps, mut jobs, mut multi_thread, mut yield_switches, mut yields_seen, mut panics, mut shared, mut preload, mut canary) = (0u64, 0u64, 0u64, 0u64, 0u64, 0u64, 0u64, 0u64, 0u64);
